@@ -117,6 +117,12 @@ func (tw *TimerWheel[K, V]) expire(index int, prevTicks int64, delta int64, remo
 	if delta < int64(steps) {
 		steps = uint(delta)
 	}
+	// Also visit the slot of the current tick: an entry parked on this level has to be
+	// cascaded to a finer level when its slot starts. Looking at the slot only once it
+	// is over reclaims the entry up to one span of this level after its deadline.
+	if steps < tw.buckets[index] {
+		steps++
+	}
 	start := prevTicks & int64(mask)
 	end := start + int64(steps)
 	for i := start; i < end; i++ {
